@@ -363,7 +363,7 @@ func Parse(filename string, src io.Reader) (*Spec, error) {
 
 			grammar := grammar.NewCFG(table.Terminals(), table.NonTerminals(), table.Productions(), "start")
 			if err := grammar.Verify(); err != nil {
-				errs = errors.Append(errs, err)
+				errs = errors.Append(errs, inFixedOrder(err))
 			}
 
 			precedences := table.Precedences()
